@@ -536,6 +536,8 @@ def pair_values(fld, orig, file_len, tier):
         return boundary_values(fld, orig, file_len)
     m = (1 << (8 * fld['size'])) - 1
     raw = [0, 0xffff, 1 << 31, m, file_len + 1, fld['S'] - 1]
+    if fld['size'] == 2:
+        raw.append(0xff00)      # the largest count / index below the reserved range: far more records than the file has bytes
     out = []
     for v in raw:
         v &= m
